@@ -124,7 +124,11 @@ impl EventGen for ReuseElement {
             pos.update_size(&sz);
         }
         pos.update_shape(&instance_element.name);
-        pos.set_position_attrs(&mut instance_element);
+        // without a position on the reuse element the instance keeps the template's own
+        // (set_position_attrs would strip its cx / cy / dx / dw ... as superseded)
+        if pos.has_x_position() || pos.has_y_position() {
+            pos.set_position_attrs(&mut instance_element);
+        }
 
         let res = if let (false, Some((start, end))) = (
             instance_element.is_empty_element(),
